@@ -1,5 +1,7 @@
 import ColoVerif.Model.NetAsm
+import ColoVerif.Model.NetTopology
 import Driver.Common
+import Driver.CircuitIO
 /-
 Driver for C17: replays the harness' `NetModel` construction on the assembly model and prints
 the assembled linear system exactly.  Numbers travel as `<mantissa> <exp2>` (value =
@@ -13,8 +15,14 @@ mantissa · 2^exp2, mantissa odd or zero) — the exact value of the C++ float.
                                                  -> (nothing)   addNet(cells, offsets, minPin, maxPin, weight)
   pen <cutM> <cutE> <n> (<tM> <tE> <sM> <sE>)*n  -> (nothing)   addPenalty(pl, target, strength, cutoff)
   asm                                            -> dim / mat / rhs / init lines of the finalized system
+
+Topology stream (`NetModel::xTopology` / `yTopology` of a `Circuit`):
+
+  circuit … end                                  -> (nothing)   block of `vc::dumpCircuit` (Driver.CircuitIO)
+  topo x|y                                       -> topo <axis> <nbCells> <nbNets>
+                                                    tnet <wM> <wE> <k> (<cell> <oM> <oE>)*k     per stored net
 -/
-open ColoVerif.NetAsm Driver
+open ColoVerif.NetAsm ColoVerif.NetTopology Driver
 
 structure St where
   nbCells : Nat := 0
@@ -23,6 +31,7 @@ structure St where
   pl : List Rat := []
   raws : List RawNet := []     -- newest first
   pen : Option Penalty := none
+  circ : ColoVerif.Circuit := ⟨[], [], []⟩
 
 def dy (m e : String) : Rat := ((int! m : Int) : Rat) * (2 : Rat) ^ (int! e)
 
@@ -63,6 +72,10 @@ def parsePen : List String → List (Rat × Rat)
 def showTriplets (ts : List (Nat × Nat × Rat)) : String :=
   " ".intercalate (ts.map fun t => toString t.1 ++ " " ++ toString t.2.1 ++ " " ++ showRat t.2.2)
 
+def showNet (n : ColoVerif.NetAsm.Net) : String :=
+  "tnet " ++ showRat n.weight ++ " " ++ toString n.pins.length ++
+    String.join (n.pins.map fun p => " " ++ toString p.1 ++ " " ++ showRat p.2)
+
 def step (s : St) : List String → St × List String
   | ["case", k] => ({}, ["case " ++ k])
   | ["cfg", n, mode, em, ee] => ({ s with nbCells := (int! n).toNat, mode := parseMode mode, eps := dy em ee }, [])
@@ -80,7 +93,15 @@ def step (s : St) : List String → St × List String
          ("mat " ++ toString sys.mat.length ++ " " ++ showTriplets sys.triplets).trimAscii.toString,
          ("rhs " ++ " ".intercalate (sys.rhs.map showRat)).trimAscii.toString,
          ("init " ++ " ".intercalate (sys.initial.map showRat)).trimAscii.toString])
+  | ["topo", ax] =>
+    let a : Axis := if ax = "y" then .y else .x
+    let nets := topology a s.circ
+    (s, ("topo " ++ ax ++ " " ++ toString s.circ.cells.length ++ " " ++ toString nets.length) :: nets.map showNet)
+  | ["end"] => (s, [])
   | [] => (s, [])
-  | ws => (s, ["bad-op " ++ " ".intercalate ws])
+  | ws =>
+    match circuitLine s.circ ws with
+    | some c => ({ s with circ := c }, [])
+    | none => (s, ["bad-op " ++ " ".intercalate ws])
 
 def main : IO Unit := Driver.run step {}
